@@ -137,11 +137,18 @@ def eval_choices(cfg):
     return out
 
 
+def cfg_of(case):
+    cfg = {k: case[k] for k in ('fmt', 'kw', 'mode', 'calls')}
+    cfg['box'] = case.get('box', 'm'); cfg['seed'] = case.get('seed', 1)
+    if case.get('full2'): cfg['full2'] = 1
+    return cfg
+
+
 def exec_choices(cfg):
     calls = cfg['calls']
     if len(calls) == 1:
         return [[c] for c in call_choices(cfg['fmt'], calls[0], True)]
-    return [[a, b] for a in call_choices(cfg['fmt'], calls[0], False) for b in call_choices(cfg['fmt'], calls[1], False)]
+    return [[a, b] for a in call_choices(cfg['fmt'], calls[0], False) for b in call_choices(cfg['fmt'], calls[1], bool(cfg.get('full2')))]
 
 
 # ------------------------------------------------------------------ the scripted learner
@@ -619,7 +626,7 @@ class C15(Check):
             'floats, one-hot tuples of 2 and 3, lists, sparse dicts with 1 and 2 features, 1-feature dense) x context kind {None, '
             'scalar, list} x SafeLearner seed (PMF formats) x container types; plus two-call histories where the second call offers '
             'another action set (and another batch size). Inside a single-call case EVERY assignment of named action / stated '
-            'probability / PMF (one-hots, two mixed) to the rows is executed; two-call cases execute all rotations. Every execution '
+            'probability / PMF (one-hots, two mixed) to the rows is executed; two-call cases execute all rotations (thorough, without kwargs: all rotations of the first x every assignment of the second call). Every execution '
             'builds a fresh scripted learner and SafeLearner, runs predict then learn, and compares with the reference reading. An '
             'execution is non-trivial when it is inside the property\'s quantifier (not an un-hinted PMF that could also be read as an '
             'action or (action,prob) pair), offers >= 2 actions and its whole predict+learn round trip was compared')
@@ -679,15 +686,16 @@ class C15(Check):
                         for kw in ((0, 2) if quick else range(4)):
                             for ctx in (('scalar',) if quick else ('none', 'scalar')):
                                 for n2 in n2s:
-                                    yield {'fmt': fmt, 'kw': kw, 'mode': mode, 'box': 'm', 'seed': 1,
-                                           'calls': [{'acts': acts, 'ctx': ctx, 'n': n}, {'acts': acts2, 'ctx': ctx, 'n': n2}]}
+                                    case = {'fmt': fmt, 'kw': kw, 'mode': mode, 'box': 'm', 'seed': 1,
+                                            'calls': [{'acts': acts, 'ctx': ctx, 'n': n}, {'acts': acts2, 'ctx': ctx, 'n': n2}]}
+                                    if not quick and kw == 0 and ctx == 'scalar': case['full2'] = 1      # every assignment of answers to the rows of the second call
+                                    yield case
 
     # -------------------------------------------------------------- one case
     def run_case(self, case, acc):
         if 'agg' in case: return self.run_agg(case, acc)
         if case.get('via') == 'eval': return self.run_eval(case, acc)
-        cfg = {k: case[k] for k in ('fmt', 'kw', 'mode', 'calls')}
-        cfg['box'] = case.get('box', 'm'); cfg['seed'] = case.get('seed', 1)
+        cfg = cfg_of(case)
         single = 'ch' in case            # a witness: one execution, classified completely
         for ch in ([case['ch']] if single else exec_choices(cfg)):
             r = run_checked(cfg, ch)
@@ -745,7 +753,7 @@ class C15(Check):
             if not ck.startswith('coarse|'):
                 final.setdefault(ck, (order, what, wit)); continue
             comp, mode, call = wit['_f']
-            cfg = {k: wit[k] for k in ('fmt', 'kw', 'mode', 'box', 'seed', 'calls')}
+            cfg = cfg_of(wit)
             mcfg, mch, mf = minimise(cfg, wit['ch'], Finding(comp, mode, what, call))
             k = key_of(mcfg, mf)
             if k not in final: final[k] = (order, mf.what, dict(mcfg, ch=mch))
